@@ -65,6 +65,11 @@ structure Window where
   hotPuts : List (Key × Int) := []
   snapPuts : List (Key × Int) := []
   victims : List (Key × Int) := []
+  /-- a snapshot attempt has failed and not yet been retried -/
+  failed : Bool := false
+  /-- cells put between a failed attempt and its retry: the retry commits only the old snapshot
+      store but removes every closed WAL segment (DESIGN-level finding F18, see Spec.C02) -/
+  retryVictims : List (Key × Int) := []
 deriving Repr
 
 /-- why a read fails; the signature `delete-overlaps-inflight-snapshot` is DESIGN §6 F1 -/
@@ -75,11 +80,20 @@ def readReason (h : List Ev) (w : Window) (k : Key) (lo hi : Int) (asc : Bool) (
       if deletedAfterWrite h k p.1 p.2 then
         if w.victims.contains (k, p.1) then s!"delete-overlaps-inflight-snapshot:s{k.series}f{k.field}t{p.1}"
         else s!"deleted-point-returned:s{k.series}f{k.field}t{p.1}"
+      else if w.retryVictims.contains (k, p.1) then s!"write-after-failed-snapshot-lost:s{k.series}f{k.field}t{p.1}"
       else s!"wrong-value:s{k.series}f{k.field}t{p.1}"
-    | none => "unaffected-point-missing:"
+    | none =>
+      match h.find? fun
+        | .put e => decide (e.key = k) && decide (lo ≤ e.ts) && decide (e.ts ≤ hi) && (cell h k e.ts).isSome
+                    && !(rows.any fun p => p.1 == e.ts)
+        | _ => false with
+      | some (.put e) =>
+        if w.retryVictims.contains (k, e.ts) then s!"write-after-failed-snapshot-lost:s{k.series}f{k.field}t{e.ts}"
+        else s!"unaffected-point-missing:s{k.series}f{k.field}t{e.ts}"
+      | _ => "unaffected-point-missing:"
 
 def inScope : Op → Bool
-  | .write _ | .read .. | .delete .. | .snapBegin | .snapStep | .snapTo _ | .compact .. | .files
+  | .write _ | .read .. | .delete .. | .snapBegin | .snapFail | .snapStep | .snapTo _ | .compact .. | .files
   | .crash false | .compactCrash .. => true
   | _ => false
 
@@ -92,9 +106,18 @@ def closesWindow : Phase → Bool
 def Window.snapTo (w : Window) (p : Phase) : Window :=
   { w with isOpen := w.isOpen && !closesWindow p, snapPuts := if p = .idle then [] else w.snapPuts }
 
+/-- `Cache.Snapshot` happened: what was put so far moves to the snapshot store — unless this is
+    the retry of a failed attempt, which returns the old snapshot store as it is -/
+def Window.begin (w : Window) : Window :=
+  if w.failed then { w with isOpen := true, failed := false, retryVictims := w.retryVictims ++ w.hotPuts }
+  else { w with isOpen := true, snapPuts := w.snapPuts ++ w.hotPuts, hotPuts := [] }
+
+/-- the attempt failed after `Cache.Snapshot`: the snapshot store stays pending -/
+def Window.fail (w : Window) : Window := { w.begin with failed := true }
+
 /-- restart: whatever was in the snapshot store comes back into the hot store from the WAL -/
 def Window.crash (w : Window) : Window :=
-  { w with isOpen := false, hotPuts := w.snapPuts ++ w.hotPuts, snapPuts := [] }
+  { w with isOpen := false, failed := false, hotPuts := w.snapPuts ++ w.hotPuts, snapPuts := [] }
 
 /-- `none` = the statement holds on this trace; `some reason` = where it fails. -/
 def checkFrom (h : List Ev) (w : Window) : List (Op × Obs) → Option String
@@ -114,7 +137,11 @@ def checkFrom (h : List Ev) (w : Window) : List (Op × Obs) → Option String
     | _ => some "read-failed:"
   | (.snapBegin, o) :: tr =>
     -- the cells put so far move to the snapshot store; later puts go to the new hot store
-    if o = .ok then checkFrom h { w with isOpen := true, snapPuts := w.hotPuts, hotPuts := [] } tr
+    if o = .ok then checkFrom h w.begin tr
+    else checkFrom h w tr
+  | (.snapFail, o) :: tr =>
+    -- a failed attempt keeps its snapshot store (and the window) until a retry succeeds
+    if o = .failed then checkFrom h w.fail tr
     else checkFrom h w tr
   | (.snapTo p, _) :: tr => checkFrom h (w.snapTo p) tr
   | (.crash false, o) :: tr => if o = .ok then checkFrom h w.crash tr else some "reopen-failed:"
